@@ -206,18 +206,11 @@ func c14Request(c *Ctx) {
 				id := int64(1 + i%1000)
 				var op *sber.Node
 				kind := pick(r, []string{"bind", "search", "modify", "add", "delete"})
-				switch kind {
-				case "bind":
-					op = sber.BindRequest(3, []byte("cn=u"), []byte("p"))
-				case "search":
-					op = sber.Search{Base: []byte("dc=x"), Scope: 2, Filter: sber.PresentFilter("cn"), Attrs: [][]byte{}}.Node()
-				case "modify":
-					op = sber.ModifyRequest([]byte("cn=u"), nil)
-				case "add":
-					op = sber.AddRequest([]byte("cn=u"), nil)
-				case "delete":
-					op = sber.DelRequest([]byte("cn=u"))
-				}
+				// the request that carries the controls varies too (empty and odd field values, many attributes):
+				// what a control decodes to must not depend on the rest of the request
+				carrier := genReq(r, kind)
+				carrier.Controls, carrier.HasCtls = nil, false
+				op = carrier.Op()
 				cl.Send(sber.Seq(sber.Int(id), op, ctlNode).Encode())
 				if _, err := cl.ReadMsg(patience); err != nil {
 					c.Violate("request carrying gldap-encoded controls was not served", fmt.Sprintf("%s: %v", kind, err), map[string]any{"controls": specs})
